@@ -321,10 +321,14 @@ class RealMath(object):
             sa = sym.SUMS.by_const.get(t.get_id())
             if sa is not None:
                 n = self.num(sa.n)
+                if int(n) > 256:
+                    raise GiveUp("a sum over %d terms in the model" % int(n))
                 return sum((self.num(z3.substitute(sa.body, (sa.bound, z3.IntVal(j)))) for j in range(int(n))), 0)
             ea = sym.EXTREMA.by_const.get(t.get_id())
             if ea is not None:
                 n = int(self.num(ea.n))
+                if n > 256:
+                    raise GiveUp("an extremum over %d terms in the model" % n)
                 vals = [self.num(z3.substitute(ea.body, (ea.bound, z3.IntVal(j)))) for j in range(n)]
                 if ea.which == 'any':
                     return any(vals)
@@ -375,6 +379,8 @@ class RealMath(object):
                 lo, hi = (0, r) if not isinstance(r, tuple) else r
                 lo = lo if isinstance(lo, int) else int(self.num(lo.t))
                 hi = hi if isinstance(hi, int) else int(self.num(hi.t))
+                if hi - lo > 256:
+                    raise GiveUp("a quantifier over %d values in the model" % (hi - lo))
                 ranges.append(range(lo, hi))
             return all(self.truth(f.body(*idx)) for idx in itertools.product(*ranges))
         if isinstance(f, (list, tuple)):
@@ -687,13 +693,41 @@ def replay_native(cex, rtol=1e-6, atol=1e-9):
     import contextlib
     # (a function that writes files does so in a scratch directory which is removed straight afterwards)
     here, scratch = os.getcwd(), tempfile.mkdtemp(prefix='sedvc_native_', dir=os.environ.get('SEDVC_SCRATCH') or None)
+    import signal
+    import sys as _sys
+
+    class _TooLong(Exception):
+        pass
+
+    def _alarm(signum, frame):
+        raise _TooLong()
+    old_stdin, old_handler = _sys.stdin, None
     try:
         os.chdir(scratch)
+        _sys.stdin = open(os.devnull)           # a function that asks the user a question gets EOF, not a hang
+        try:
+            old_handler = signal.signal(signal.SIGALRM, _alarm)
+            signal.setitimer(signal.ITIMER_REAL, 60)
+        except (ValueError, AttributeError):    # not in the main thread
+            old_handler = None
         with contextlib.redirect_stdout(io.StringIO()), np.errstate(all='ignore'):
             result = target(**call_args)
+    except _TooLong:
+        raise GiveUp('the real function did not finish within 60 s on this input')
     except Exception as e:       # noqa
         status, exc = 'raise', type(e).__name__
     finally:
+        try:
+            signal.setitimer(signal.ITIMER_REAL, 0)
+            if old_handler is not None:
+                signal.signal(signal.SIGALRM, old_handler)
+        except (ValueError, AttributeError):
+            pass
+        try:
+            _sys.stdin.close()
+        except Exception:       # noqa
+            pass
+        _sys.stdin = old_stdin
         os.chdir(here)
         shutil.rmtree(scratch, ignore_errors=True)
     pred = cex['predicted']
